@@ -54,6 +54,15 @@ CLAIMED = {
             "per segment touched; an index into the cached chunk must fetch nothing.",
             "Trusted: TLC, byte layout logged by the independent encoder, the recording stream.",
             "DESIGN.md 3.4, 5/C19"),
+    "C06": ("TLA+ TdmsTruncate over TdmsLayout: TLC checks the reader model of clamping / dropped segment / partial final "
+            "chunk against the statement's invariants for every cut of every enumerated file; every (file, cut) is "
+            "replayed on the concrete bytes, eagerly and lazily",
+            "Exhaustive crash-point enumeration within bounds (1-2 segments, two channels, widths 1/4/8/16 and string, "
+            "1-3 chunks, both layouts, metadata-less last segment, explicit offset or marker; every byte offset) with "
+            "model checking of the reader model and spec->code conformance judged by the statement's own invariants "
+            "on observed results.",
+            "Trusted: TLC, TdmsLayout byte arithmetic (cross-checked against the encoder on every position), encoder.",
+            "DESIGN.md 3.5, 5/C06"),
     "C15": ("TLA+ TdmsSegments: byte order is an attribute of the encoding only; TLC enumerates per-segment byte-order "
             "assignments, each file replayed in 4 byte-order variants against the one specification view",
             "Model checking + spec->code conformance: all 2^k per-segment byte-order assignments (k<=2) over "
